@@ -1,6 +1,6 @@
 CONSTANTS
   Images = {"i1","i2","i3","i4"}
-  Names = {"a","b","c","endorsement"}
+  Names = {"a","b","q/a","endorsement"}
   Design = "code"
 SPECIFICATION Spec
 VIEW view
